@@ -1266,8 +1266,18 @@ impl ser::SerializeSeq for ValueSerializeVec {
     where
         T: ser::Serialize + ?Sized,
     {
-        self.vec.push(Value::try_from(value)?);
-        Ok(())
+        match Value::try_from(value) {
+            Ok(value) => {
+                self.vec.push(value);
+                Ok(())
+            }
+            // Only the value of a field may be skipped for being `None`; inside a sequence it has
+            // to be reported, or the enclosing map would drop the whole field
+            Err(crate::ser::Error {
+                inner: crate::edit::ser::Error::UnsupportedNone,
+            }) => Err(ser::Error::custom("unsupported None value")),
+            Err(e) => Err(e),
+        }
     }
 
     fn end(self) -> Result<Value, crate::ser::Error> {
